@@ -324,7 +324,8 @@ func writeEvidence(run *checkRun, verif string, discharged int, known, failed []
 
 func propertyAssumptions(run *checkRun) []string {
 	return []string{
-		"goroutine interleavings, termination, timing and panics raised by backend callbacks are outside the sequential verification conditions",
+		"goroutine interleavings, termination and timing are outside the sequential verification conditions; panics raised by backend callbacks are modelled only at the recover handlers under contract, each verified for the panicking case from any state satisfying its stated precondition (that the precondition holds wherever a panic can start is assumed)",
+		"postconditions about the calls a function makes itself (resultof/called) are obligations of that function only, not handed to its callers",
 		"package-level sentinel variables are never reassigned (mechanically scanned on load)",
 	}
 }
